@@ -77,4 +77,97 @@ theorem check_vset_breaks_isolation :
   dsimp only
   decide
 
+/-! ## Non-vacuity: a concrete application that meets both premises, and the theorem on it
+
+  Validate burns the signature-check gas and refuses transaction 0. ProcessCheck reads key 1 and
+  WRITES keys 1 and 2 (in the check state), then — transaction 9 only — fails after its writes.
+  ProcessDeliver adds the transaction to the counter under key 1, copies the volatile cell 0 into
+  key 2 and fails for transaction 9, after its writes. The fee step reads the gas counter. A
+  BeginBlock hook reads key 1 and caches it in the volatile cell 0 — the S14 shape of `unaimedH`,
+  but RE-AIMED at the deliver state; an EndBlock hook records the height under key 9. Block gas
+  limit 10000. -/
+
+def isoH : Handlers Nat Nat Nat Unit Nat Nat Nat :=
+  { hash := id,
+    validate := fun tx => .burn 5 (if tx = 0 then .fail else .ret ()),
+    check := fun tx => .get 1 (fun _ => .set 1 (tx + 100) (fun _ => .set 2 tx (fun _ =>
+      if tx = 9 then .fail else .ret tx))),
+    deliver := fun tx => .get 1 (fun r => match r with
+      | .val v => .set 1 (v.getD 0 + tx) (fun _ => .vget 0 (fun c => .set 2 (c.getD 99) (fun _ =>
+          if tx = 9 then .fail else .ret tx)))
+      | .errGas => .fail),
+    fee := fun _ g0 => .gas (fun g => .ret (g - g0)),
+    begin := fun _ => [(true, .get 1 (fun r => match r with
+      | .val v => .vset 0 v (.ret ())
+      | .errGas => .fail))],
+    endb := fun h => [(true, .set 9 h (fun _ => .ret ()))],
+    gasLimit := 10000 }
+
+def isoN : Node Nat Nat Nat Nat Nat Nat :=
+  { tree := Tree.empty ⟨1, 0, 0⟩, dlv := Ov.fresh 10000, chk := Ov.fresh 10000, vol := fun _ => none,
+    idx := [], aim := .check, height := 0, closed := false }
+
+theorem iso_aimed : AllAimed isoH := by
+  intro h
+  constructor
+  · intro hk hm
+    simp only [isoH, List.mem_singleton] at hm
+    subst hm
+    rfl
+  · intro hk hm
+    simp only [isoH, List.mem_singleton] at hm
+    subst hm
+    rfl
+
+theorem iso_noVset : CheckNoVset isoH := by
+  intro tx
+  refine ⟨?_, ?_, fun g => by simp [isoH, Prog.NoVset]⟩
+  · simp only [isoH, Prog.NoVset]
+    split <;> simp [Prog.NoVset]
+  · simp only [isoH, Prog.NoVset]
+    intro _ _ _
+    split <;> simp [Prog.NoVset]
+
+deriving instance DecidableEq for Call
+
+/-- two blocks, `[5, 9]` and `[7]`, with eight mempool checks in between the consensus calls: of
+    valid transactions (7, 5, 3, 6, 4), of one Validate refuses (0), of one whose ProcessCheck fails
+    after its writes (9) and of one that is already in the index (5, the second time) -/
+def isoCalls : List (Call Nat) :=
+  [.check 7, .begin, .check 0, .deliver 5, .check 9, .deliver 9, .check 5, .endb, .check 3,
+   .commit [5, 9], .check 6, .begin, .deliver 7, .check 5, .endb, .commit [7], .check 4]
+
+/-- `checktx_isolation` applied to this run: both premises are proved -/
+theorem isolation_instance :
+    let a := runCalls exCfg isoH () ⟨isoN, []⟩ isoCalls
+    let b := runCalls exCfg isoH () ⟨isoN, []⟩ (isoCalls.filter (fun c => !c.isCheck))
+    a.1.node.consensus = b.1.node.consensus ∧ a.1.pending = b.1.pending ∧
+    a.2.filter (fun o => !o.isChecked) = b.2 :=
+  checktx_isolation exCfg isoH () iso_aimed iso_noVset ⟨isoN, []⟩ isoCalls
+
+/-- … and its conclusion, recomputed on both sides. The checks did run and did write: their answers
+    are `true, false, false, true, true, true, false, true`, the check state held `1 ↦ 103` before the
+    first Commit and holds `1 ↦ 104` at the end, and `.check 6` wrote `1 ↦ 106` into it right before
+    the BeginBlock hook of block 2 read key 1 — which nevertheless saw the committed 5 (it is written
+    to key 2 by transaction 7). The consensus outputs are the same nine values with and without -/
+theorem isolation_instance_facts :
+    let a := runCalls exCfg isoH () ⟨isoN, []⟩ isoCalls
+    let b := runCalls exCfg isoH () ⟨isoN, []⟩ (isoCalls.filter (fun c => !c.isCheck))
+    isoCalls.filter (fun c => !c.isCheck) =
+      [.begin, .deliver 5, .deliver 9, .endb, .commit [5, 9], .begin, .deliver 7, .endb, .commit [7]] ∧
+    b.2 = [.none, .tx ⟨true, some 5, 25⟩, .tx ⟨false, none, 27⟩, .none,
+           .committed [.set 1 5, .set 2 99, .set 9 1, .save],
+           .none, .tx ⟨true, some 7, 25⟩, .none,
+           .committed [.set 1 12, .set 2 5, .set 9 2, .save]] ∧
+    a.2.filter (fun o => !o.isChecked) = b.2 ∧
+    a.2.filter (fun o => o.isChecked) =
+      [.checked true, .checked false, .checked false, .checked true, .checked true, .checked true,
+       .checked false, .checked true] ∧
+    (runCalls exCfg isoH () ⟨isoN, []⟩ (isoCalls.take 9)).1.node.chk.cache = [(1, 103), (2, 3)] ∧
+    (runCalls exCfg isoH () ⟨isoN, []⟩ (isoCalls.take 11)).1.node.chk.cache = [(1, 106), (2, 6)] ∧
+    a.1.node.chk.cache = [(1, 104), (2, 4)] ∧ b.1.node.chk.cache = [] ∧
+    a.1.node.tree.working = b.1.node.tree.working ∧ a.1.node.tree.working = [(1, 12), (2, 5), (9, 2)] := by
+  dsimp only
+  decide +kernel
+
 end OLP.Props.C07
